@@ -1,0 +1,10 @@
+//go:build verif
+
+package container
+
+// VerifNextField returns the element the `next` pointer refers to (the exported Next() returns prev).
+// For the verification harness (/verif, property C15) only.
+func (cle *CLElement) VerifNextField() *CLElement { return cle.next }
+
+// VerifPrevField returns the element the `prev` pointer refers to.
+func (cle *CLElement) VerifPrevField() *CLElement { return cle.prev }
